@@ -295,6 +295,17 @@ RDATA = {
 }
 
 
+GENERIC_RDATA = {"name": _NM, "root": b"\x00", "4-octets": b"\x01\x02\x03\x04", "16-octets": bytes(range(16)), "string": b"\x03abc",
+                 "empty": b"", "misfit": b"\xff\xff", "name-then-more": _NM + b"\x00\x01"}
+
+
+def all_types():
+    """every type number the implementation's table names, plus numbers it has no name for"""
+    from mitmproxy.net.dns import types as T
+    named = {v for k, v in vars(T).items() if k.isupper() and isinstance(v, int) and not isinstance(v, bool) and 0 <= v <= 0xFFFF}
+    return sorted(named | {0, 99, 65280, 65535})
+
+
 def spec(hdr=None, q=None, an=None, ns=None, ar=None, compress=False):
     h = dict(BASE_HDR)
     h.update(hdr or {})
@@ -366,6 +377,13 @@ def dns_specs(tier):
             for sec in (("an", "ns", "ar") if thorough or shape in ("fits", "undecodable") else ("an",)):
                 out.append(spec(q=[(NAME_AB, ty, 1)], **{sec: [(NAME_AB, ty, 1, 60, rd)]}))
             out.append(spec(q=[(NAME_AB, ty, 1)], an=[(NAME_AB, ty, 1, 60, rd)], compress=True))
+    # every record type mitmproxy has a name for, and types it has none for, each with RDATA of every generic shape
+    # (a well-formed name, the root name, 4 / 16 octets, a character-string, nothing, octets that fit no schema)
+    for ty in all_types():
+        for shape, rd in GENERIC_RDATA.items():
+            out.append(spec(q=[(NAME_AB, ty, 1)], an=[(NAME_AB, ty, 1, 60, rd)]))
+            if thorough:
+                out.append(spec(q=[(NAME_AB, 1, 1)], ar=[((b"c",), ty, 1, 0, rd)], compress=True))
     for n in NAMES:
         out.append(spec(an=[(n, 1, 1, 60, RDATA[1]["fits"])]))
         if thorough:
@@ -573,7 +591,7 @@ def first_difference(ref, got):
             ma, mb = R.record_meaning(ra), R.record_meaning(rb)
             if ma != mb:
                 which = [k for k in ("name", "type", "class", "ttl", "data") if ma[k] != mb[k]][0]
-                return {"differs": "record." + which, "rtype": TYPE_NAMES.get(ra["type"], "other"), "rdata": rdata_class(ra)}
+                return {"differs": "record." + which, "rtype": R.TYPE_NAMES.get(ra["type"], "other"), "rdata": rdata_class(ra)}
     return None
 
 
